@@ -190,6 +190,7 @@ class Path(object):
         self.counter = 0
         self.refs = {}            # z3 ref-term id -> container
         self.notes = []
+        self.abstract = False
 
 
 class PathResult(object):
@@ -203,6 +204,7 @@ class PathResult(object):
         self.decisions = list(path.decisions)
         self.extra = extra or {}
         self.notes = list(path.notes)
+        self.abstract = path.abstract
 
 
 class Engine(object):
